@@ -154,7 +154,7 @@ Proof.
   intros Hnan. cbv zeta. pose proof (plan_target_is_new_rows s o Hnan) as Ht.
   destruct (allowed_old_new _ _ _ (crash_atomic (st_rows s) (plan_of o (st_rows s) (st_rows (fst (step s o)))) k)) as [H|[H|[rows [j [Hp Hd]]]]].
   - now left.
-  - right. left. now rewrite <- Ht.
-  - right. right. exists rows, j. split; [|exact Hd]. rewrite <- Ht, Hp. reflexivity.
+  - right. left. etransitivity; [exact H|exact Ht].
+  - right. right. exists rows, j. split; [|exact Hd]. rewrite Hp in Ht. cbn [plan_target] in Ht. symmetry. exact Ht.
 Qed.
 End PlanP.
